@@ -6,8 +6,8 @@ Nothing in this file mentions scopes, registers or instructions: a program is a 
 declarations `ds : List Decl` and (desugared) events `evs : List Event`, a typing environment maps
 names to a *kind* (who may assign to it) and a *type* (`Num` or `Bool`).
 
-`WellTyped ds evs : Bool` is the whole check. `Lemmas/Accept.lean` proves that every parsed program
-that passes it is accepted by `compile` and by `Bin.serialize`.
+`WellTyped ds evs : Bool` is the whole check. `Lemmas/Accept.lean`, `AcceptValue.lean`, `Accept2.lean`
+prove that every parsed program that passes it is accepted by `compile` and by `Bin.serialize`.
 
 Rules that are dictated by the compiler rather than by a natural reading of the grammar are kept
 as separate, named definitions:
@@ -18,6 +18,13 @@ as separate, named definitions:
   must be a declared (Report / control) variable: a local, `Cwnd`, `Rate`, … is rejected by the
   `Op::Bind` arm (`bindEmit`, right operand `Reg::None`).
 * `notReadOnly` – `Ack.*` / `Flow.*` primitives cannot be assigned.
+* `knownTargetType` – the value of `(:= x e)` used inside an expression, `x` already known, has the type
+  recorded for `x`, not the type of `e` (the compiler's value of a bind is the *register of the target*).
+
+A plain assignment may be used **as a value** inside an expression (`typeOfV`, `checkStmtV`, … below);
+the former check, which confines assignments to statement level, is kept as `WellTypedStratified`
+(`typeOf`, `checkStmt`, …) and is the restriction of `WellTyped` to `Frag.Stratified` programs
+(`Lemmas/Accept2.lean`, `wellTyped_eq`).
 -/
 namespace Portus.Lang.Typing
 open Portus Portus.Lang
@@ -110,7 +117,7 @@ def tmps : Expr → Nat
   | .sexp o l r => (if (opSig o).isSome then 1 else 0) + tmps l + tmps r
   | _ => 0
 
-/-! ## Statements -/
+/-! ## Statements, assignments at statement level only (the former check, `WellTypedStratified`) -/
 
 def numLocals (Γ : Env) : Nat := Γ.countP fun e => decide (e.2.1 = Kind.loc)
 
@@ -167,6 +174,123 @@ def checkBody (Γ : Env) : List Expr → Option Env
     | some Γ' => checkBody Γ' rest
     | none => none
 
+/-! ## Assignments used as values
+
+`(:= x r)` may occur wherever a value is expected: `(:= Report.out (+ a (:= Report.saved b)))`. The
+compiler (`compile_expr`, `Op::Bind` arm: `bindTarget`, `bindEmit`) compiles the *target first*, then
+`r`, and yields the register of the target. Typing therefore threads the environment through an
+expression, left operand before right operand, and the rule of a nested assignment is the rule of the
+statement-level assignment (`checkPlain`) with two refinements the compiler dictates:
+
+* the target is looked up in the environment *before* `r` (`Γ`), the outcome is recorded in the
+  environment *after* `r` (`Γ'`);
+* if `x` is new at the assignment but `r` itself assigns `x` (`(:= x (> (:= x 1) 0))`), no second
+  local is created: the outer assignment re-types the local the inner one created (`setTy`).
+
+No hazard condition (`Frag.noHazard`) is needed for *acceptance*: the compiler accepts
+`(:= x (+ (:= x 1) (:= x 2)))`, and so does the check. The temporaries count `tmps` is unchanged:
+a bind allocates none. -/
+
+/-- re-type the entries of `x`; kinds (hence `numLocals`) are kept -/
+def setTy (x : Name) (τ : Ty) (Γ : Env) : Env :=
+  Γ.map fun e => if e.1 = x then (e.1, e.2.1, τ) else e
+
+/-- **named rule.** `(:= x e)` as a value, `x` known with recorded type `τx`, `e : τ`: the value is the
+register of `x`, whose recorded type the assignment does not change – so the type is `τx`, whatever
+`τ` is (the compiler does not compare them: `(+ (:= Report.n true) 1)` is accepted for `n : Num`,
+`(&& (:= Report.n true) true)` is rejected). -/
+def knownTargetType (τx _τ : Ty) : Ty := τx
+
+/-- the `Op::Bind` arm on a plain right-hand side of type `τ`. `Γ`: the environment the target was
+looked up in (before the right-hand side), `Γ'`: the environment after the right-hand side.
+* `x` known: must not be read-only (`notReadOnly`); value of type `knownTargetType τx τ`;
+* `x` unknown before the right-hand side but assigned inside it: that local is re-typed to `τ`;
+* `x` unknown: a new local of type `τ`, if there are fewer than `maxLocals` already. -/
+def bindValue (Γ Γ' : Env) (x : Name) (τ : Ty) : Option (Ty × Env) :=
+  match lookup x Γ with
+  | some (k, τx) => if notReadOnly k then some (knownTargetType τx τ, Γ') else none
+  | none =>
+    match lookup x Γ' with
+    | some _ => some (τ, setTy x τ Γ')
+    | none => if numLocals Γ' < maxLocals then some (τ, (x, Kind.loc, τ) :: Γ') else none
+
+/-- the name assigned by an operator node, if it is a plain assignment to a name -/
+def bindName : Op → Expr → Option Name
+  | .bind, .atom (.name x) => some x
+  | _, _ => none
+
+/-- type of a *value* expression (operators over atoms and nested plain assignments) and the
+environment it leaves; operands left to right. `none` = ill typed, or not a value expression
+(`if`, `!if`, `ewma` are statement forms). -/
+def typeOfV (Γ : Env) : Expr → Option (Ty × Env)
+  | .atom (.bool _) => some (.bool, Γ)
+  | .atom (.num _) => some (.num, Γ)
+  | .atom (.name x) => (lookup x Γ).map fun kt => (kt.2, Γ)
+  | .sexp o l r =>
+    match opSig o with
+    | some (a, res) =>
+      match typeOfV Γ l with
+      | some (tl, Γ1) =>
+        match typeOfV Γ1 r with
+        | some (tr, Γ2) => if tl = a ∧ tr = a then some (res, Γ2) else none
+        | none => none
+      | none => none
+    | none =>
+      match bindName o l with
+      | some x =>
+        match typeOfV Γ r with
+        | some (τ, Γ') => bindValue Γ Γ' x τ
+        | none => none
+      | none => none
+  | _ => none
+
+/-- `(:= x e)` as a statement: the same rule as in value position -/
+def checkPlainV (Γ : Env) (x : Name) (e : Expr) : Option Env :=
+  match typeOfV Γ e with
+  | some (τ, Γ') => (bindValue Γ Γ' x τ).map (·.2)
+  | none => none
+
+/-- `(:= x (if c v))`, `(:= x (!if c v))`: `c : Bool`, then `v` of any type -/
+def checkGuardedV (Γ : Env) (x : Name) (c v : Expr) : Option Env :=
+  if guardedTargetDeclared Γ x then
+    match typeOfV Γ c with
+    | some (Ty.bool, Γ1) => (typeOfV Γ1 v).map (·.2)
+    | _ => none
+  else none
+
+/-- `(:= x (ewma a v))`: `a : Num`, then `v : Num` -/
+def checkEwmaV (Γ : Env) (x : Name) (a v : Expr) : Option Env :=
+  if guardedTargetDeclared Γ x then
+    match typeOfV Γ a with
+    | some (Ty.num, Γ1) =>
+      match typeOfV Γ1 v with
+      | some (Ty.num, Γ2) => some Γ2
+      | _ => none
+    | _ => none
+  else none
+
+def checkRhsV (Γ : Env) (x : Name) : Expr → Option Env
+  | .sexp o l r =>
+    match o with
+    | .if => checkGuardedV Γ x l r
+    | .notIf => checkGuardedV Γ x l r
+    | .ewma => checkEwmaV Γ x l r
+    | _ => checkPlainV Γ x (.sexp o l r)
+  | e => checkPlainV Γ x e
+
+/-- one statement; at most `maxTmps` temporaries per statement, nested assignments included -/
+def checkStmtV (Γ : Env) : Expr → Option Env
+  | .none => some Γ
+  | .sexp .bind (.atom (.name x)) rhs => if tmps rhs ≤ maxTmps then checkRhsV Γ x rhs else none
+  | _ => none
+
+def checkBodyV (Γ : Env) : List Expr → Option Env
+  | [] => some Γ
+  | s :: rest =>
+    match checkStmtV Γ s with
+    | some Γ' => checkBodyV Γ' rest
+    | none => none
+
 /-! ## Conditions and events -/
 
 /-- `compile_flag` accepts a boolean literal or an operator node, not a bare boolean variable -/
@@ -186,6 +310,16 @@ def checkEvents (Γ : Env) : List Event → Option Env
     if checkCond Γ ev.flag then
       match checkBody Γ ev.body with
       | some Γ' => checkEvents Γ' rest
+      | none => none
+    else none
+
+/-- the same with assignments allowed as values in the bodies; conditions stay pure -/
+def checkEventsV (Γ : Env) : List Event → Option Env
+  | [] => some Γ
+  | ev :: rest =>
+    if checkCond Γ ev.flag then
+      match checkBodyV Γ ev.body with
+      | some Γ' => checkEventsV Γ' rest
       | none => none
     else none
 
@@ -211,10 +345,16 @@ def declEnv (ds : List Decl) : Env := ds.map fun d => (d.var, Kind.var, (declTy 
 
 def initEnv (ds : List Decl) : Env := declEnv ds ++ builtinEnv
 
-/-- **The check.** Well-formed declarations, the stratified fragment (no assignment nested inside
-an expression), numeric literals that fit the immediate field, and every event well typed in the
-environment left by what precedes it. -/
+/-- **The check.** Well-formed declarations, numeric literals that fit the immediate field (those
+inside nested assignments included), and every event well typed in the environment left by what
+precedes it. Nothing else is needed: `checkStmtV` / `typeOfV` only let through statements of the shape of
+`Frag.stmtOk2` (they answer `none` on anything else), and the hazard part of `Frag.stmtOk2` matters
+for the semantics, not for acceptance – the compiler accepts hazardous nestings. -/
 def WellTyped (ds : List Decl) (evs : List Event) : Bool :=
+  declsOk ds && Frag.LitsOk evs && (checkEventsV (initEnv ds) evs).isSome
+
+/-- the former check: assignments at statement level only (`Frag.Stratified`) -/
+def WellTypedStratified (ds : List Decl) (evs : List Event) : Bool :=
   declsOk ds && Frag.Stratified evs && Frag.LitsOk evs && (checkEvents (initEnv ds) evs).isSome
 
 /-- a well-formed list of compile-time overrides `(name, value)`: the values fit the immediate
